@@ -244,9 +244,9 @@ Qed.
 
 (* the table of the code at HEAD is right for every character that is not (non-letter member)+32 *)
 Theorem prep_head_partial : forall al c, alpha_ok al -> shadow al c = false ->
-  s_prep (Alpha al) c = option_map (decode1 (Alpha al)) (m_prep (Alpha al) c).
+  s_prep (Alpha al) c = option_map (decode1 (Alpha al)) (m_prep_pinned (Alpha al) c).
 Proof.
-  intros al c Hok Hsh. unfold m_prep, m_prep_with, lookup_head.
+  intros al c Hok Hsh. unfold m_prep_pinned, m_prep_with, lookup_head.
   apply prep_generic; [exact Hok| |].
   - intros a Hin Hf. destruct Hok as [_ Hr]. rewrite Forall_forall in Hr. destruct (Hr _ Hin) as [Hr1 _].
     apply Z.eqb_eq in Hf. rewrite Z.mod_small in Hf by lia. split; [exact Hf|].
@@ -259,7 +259,7 @@ Proof.
 Qed.
 (* ... and wrong for such a character: DigitEncoding takes 'P' for '0' *)
 Theorem prep_head_refuted : exists al c, alpha_ok al /\
-  s_prep (Alpha al) c <> option_map (decode1 (Alpha al)) (m_prep (Alpha al) c).
+  s_prep (Alpha al) c <> option_map (decode1 (Alpha al)) (m_prep_pinned (Alpha al) c).
 Proof.
   exists [48; 49; 50; 51; 52; 53; 54; 55; 56; 57], 80. split.
   - split.
@@ -269,9 +269,9 @@ Proof.
 Qed.
 (* the repaired table is right for every character *)
 Theorem prep_fixed_full : forall al c, alpha_ok al ->
-  s_prep (Alpha al) c = option_map (decode1 (Alpha al)) (m_prep_fixed (Alpha al) c).
+  s_prep (Alpha al) c = option_map (decode1 (Alpha al)) (m_prep (Alpha al) c).
 Proof.
-  intros al c Hok. unfold m_prep_fixed, m_prep_with, lookup_fixed.
+  intros al c Hok. unfold m_prep, m_prep_with, lookup_fixed.
   apply prep_generic; [exact Hok| |].
   - intros a Hin Hf. apply andb_true_iff in Hf. destruct Hf as [Hu Hc]. apply Z.eqb_eq in Hc.
     split; [exact Hc|exact Hu].
@@ -297,7 +297,7 @@ Theorem program_head_partial : forall vr e ops v saved,
   match e with Base => True | Alpha al => alpha_ok al end -> enc_of v = e ->
   Forall (fun o => (forall c, In c (op_chars o) -> match e with Base => True | Alpha al => shadow al c = false end)
                    /\ o <> SArr) ops ->
-  map_run (decode1 e) (g_run (model_prims_with m_prep vr) v saved ops)
+  map_run (decode1 e) (g_run (model_prims_with m_prep_pinned vr) v saved ops)
   = s_run (mapv (decode1 e) v) (option_map (mapv (decode1 e)) saved) ops.
 Proof.
   intros vr e ops v saved Hok He Hops. apply run_simulation.
@@ -309,7 +309,7 @@ Qed.
 Theorem program_fixed_full : forall vr e ops v saved,
   match e with Base => True | Alpha al => alpha_ok al end -> enc_of v = e ->
   Forall (fun o => o <> SArr) ops ->
-  map_run (decode1 e) (g_run (model_prims_with m_prep_fixed vr) v saved ops)
+  map_run (decode1 e) (g_run (model_prims_with m_prep vr) v saved ops)
   = s_run (mapv (decode1 e) v) (option_map (mapv (decode1 e)) saved) ops.
 Proof.
   intros vr e ops v saved Hok He Hops. apply run_simulation.
